@@ -160,6 +160,15 @@ CLAIMED = {
             "signature / args resolved, document and model unchanged except the description).",
             "Declared bounds of opaque types agree with the registry's definitions.",
             "DESIGN.md §5 C11"),
+    "C20": ("TLA+ spec Render.tla (NodesOnce, ClustersMirror, EdgesOnce) evaluated by TLC on pairs (projection of the HUGR, parsed "
+            "DOT source) (C->S); store-unchanged and configuration-independence compared on the parsed structures",
+            "HUGRs from 100 (quick) / 1200 seeded random builder programs and the catalogue are rendered; a small DOT reader extracts node "
+            "statements with their port cells, the cluster nesting and the edge statements; TLC decides that every node, port and link is "
+            "drawn exactly once with the right names / offsets / type labels and that clusters nest as the hierarchy; the HUGR is projected "
+            "before and after rendering, and all palette x qualify_op_name configurations must give the same structure up to colours and "
+            "the extension prefix. Corrupted drawings must be rejected on the expected clause.",
+            "Display names and type strings are taken from the same op.name()/str(type) the renderer uses; only the graphviz Python package is needed.",
+            "DESIGN.md §5 C20"),
 }
 
 NOT_YET = "check not built yet in this round (planned: see DESIGN.md §5); nothing is claimed for it until its TLA+ spec and conformance legs exist"
